@@ -35,16 +35,16 @@ theorem eraseW_rebuild (f : Str → Int) (e : List (Str × List Str)) : eraseW (
     have : ((fun x : Codon => x.triplet) ∘ fun x => { triplet := x, weight := f x }) = id := by funext x; rfl
     rw [this, List.map_id]
 
-theorem freq_fun_eq (s : Str) (hs : Ascii s) :
+theorem freq_fun_eq (s : Str) :
     mapGet (getCodonFrequency (CodonTables.upper s)) = fun x => (countCodons s x : Int) := by
   funext x
-  have := freq_counts (CodonTables.upper s) (upper_ascii hs) x
+  have := freq_counts (CodonTables.upper s) x
   simpa [countCodons, CodonTables.upper, Spec.ValueTables.upper] using this
 
 /-- key step: in-place re-weighting of a cell with the same code as `t` produces `reweight t s` -/
-theorem optimizeCell_eq_reweight (s : Str) (hs : Ascii s) (cell : List AminoAcid) (t : Table)
+theorem optimizeCell_eq_reweight (s : Str) (cell : List AminoAcid) (t : Table)
     (h : eraseW cell = eraseW t.aminoAcids) : optimizeCell s cell = (reweight t s).aminoAcids := by
-  rw [optimizeCell_eq_rebuild, reweight_eq_rebuild, freq_fun_eq s hs, h]
+  rw [optimizeCell_eq_rebuild, reweight_eq_rebuild, freq_fun_eq s, h]
 
 theorem eraseW_optimizeCell (s : Str) (cell : List AminoAcid) : eraseW (optimizeCell s cell) = eraseW cell := by
   rw [optimizeCell_eq_rebuild, eraseW_rebuild]
@@ -210,10 +210,6 @@ theorem handles_none_iff (I : Inv defs hs vs ls) (k : Nat) : hs.handles[k]? = no
 section step
 variable {κ : Type} (cmp : Table → Table → κ → Outcome Table)
 
-def AsciiOp : Op κ → Prop
-  | .reweight _ s => Ascii s
-  | _ => True
-
 theorem inv_get (I : Inv defs hs vs ls) (id : Nat) (ls' : LState) (hl : lstep defs ls (Op.get id : Op κ) = some ls') :
     Inv defs (hstep cmp hs (.get id)) (vstep addTable cmp defs vs (.get id)) ls' := by
   have L := lookup_defs defs 0 id
@@ -260,7 +256,7 @@ theorem inv_get (I : Inv defs hs vs ls) (id : Nat) (ls' : LState) (hl : lstep de
           rw [show k = ls.regions.length by omega]; simp
     · cases hl
 
-theorem inv_reweight (I : Inv defs hs vs ls) (h : Nat) (s : Str) (hs' : Ascii s) (ls' : LState)
+theorem inv_reweight (I : Inv defs hs vs ls) (h : Nat) (s : Str) (ls' : LState)
     (hl : lstep defs ls (Op.reweight h s : Op κ) = some ls') :
     Inv defs (hstep cmp hs (.reweight h s)) (vstep addTable cmp defs vs (.reweight h s)) ls' := by
   have hl1 := I.len1
@@ -285,7 +281,7 @@ theorem inv_reweight (I : Inv defs hs vs ls) (h : Nat) (s : Str) (hs' : Ascii s)
     simp only [Option.some.injEq] at hl
     subst hl
     have hr : ht.aas < hs.heap.length := getElem?_lt_of_some d
-    have hcell : optimizeCell s cell = (reweight v s).aminoAcids := optimizeCell_eq_reweight s hs' cell v e
+    have hcell : optimizeCell s cell = (reweight v s).aminoAcids := optimizeCell_eq_reweight s cell v e
     have hnew : (hs.heap.set ht.aas (optimizeCell s cell))[ht.aas]? = some (optimizeCell s cell) := by
       simp [List.getElem?_set_self hr]
     have hd : deref (hs.heap.set ht.aas (optimizeCell s cell)) ht = some (reweight v s) := by
@@ -349,11 +345,11 @@ theorem inv_reweight (I : Inv defs hs vs ls) (h : Nat) (s : Str) (hs' : Ascii s)
         exact I.dclean r p hp ho
 
 
-theorem inv_step (I : Inv defs hs vs ls) (op : Op κ) (ha : AsciiOp op) (ls' : LState) (hl : lstep defs ls op = some ls') :
+theorem inv_step (I : Inv defs hs vs ls) (op : Op κ) (ls' : LState) (hl : lstep defs ls op = some ls') :
     Inv defs (hstep cmp hs op) (vstep addTable cmp defs vs op) ls' := by
   cases op with
   | get id => exact inv_get cmp I id ls' hl
-  | reweight h s => exact inv_reweight cmp I h s ha ls' hl
+  | reweight h s => exact inv_reweight cmp I h s ls' hl
   | add h1 h2 =>
     simp only [lstep] at hl
     split at hl
@@ -396,19 +392,19 @@ theorem inv_step (I : Inv defs hs vs ls) (op : Op κ) (ha : AsciiOp op) (ls' : L
 
 /-- the refinement along a whole history -/
 theorem inv_run (hist : List (Op κ)) : ∀ (hs : HState) (vs : VState) (ls : LState), Inv defs hs vs ls →
-    (∀ op ∈ hist, AsciiOp op) → linearFrom defs ls hist = true →
+    linearFrom defs ls hist = true →
     (runHeapFrom cmp hs hist).trace = (hist.foldl (vstep addTable cmp defs) vs).trace := by
   induction hist with
-  | nil => intro hs vs ls I _ _; exact I.tr
+  | nil => intro hs vs ls I _; exact I.tr
   | cons op rest ih =>
-    intro hs vs ls I ha hl
+    intro hs vs ls I hl
     simp only [linearFrom] at hl
     cases h : lstep defs ls op with
     | none => rw [h] at hl; cases hl
     | some ls' =>
       rw [h] at hl
       simp only [runHeapFrom, List.foldl_cons]
-      exact ih _ _ ls' (inv_step cmp I op (ha op (by simp)) ls' h) (fun o ho => ha o (by simp [ho])) hl
+      exact ih _ _ ls' (inv_step cmp I op ls' h) hl
 
 end step
 
